@@ -447,6 +447,7 @@ _SINGLETONS = {}
 # Guards lookup-or-construct of singletons. Re-entrant, since a singleton's
 # constructor may itself use (other) singletons.
 _SINGLETONS_LOCK = threading.RLock()
+_SINGLETON_KEY_LOCKS = {}
 
 # Keeps track of file readers. These are functions that behave like Python's
 # `open` function (can be used a context manager) and will be used to load
@@ -2881,16 +2882,26 @@ def singleton(constructor):
 
 def singleton_value(key, constructor=None):
   with _SINGLETONS_LOCK:
-    if key not in _SINGLETONS:
-      if not constructor:
-        err_str = ("No singleton found for key '{}', and no constructor was "
-                   'given.')
-        raise ValueError(err_str.format(key))
-      if not callable(constructor):
-        err_str = "The constructor for singleton '{}' is not callable."
-        raise ValueError(err_str.format(key))
-      _SINGLETONS[key] = constructor()
-    return _SINGLETONS[key]
+    if key in _SINGLETONS:
+      return _SINGLETONS[key]
+    if not constructor:
+      err_str = ("No singleton found for key '{}', and no constructor was "
+                 'given.')
+      raise ValueError(err_str.format(key))
+    if not callable(constructor):
+      err_str = "The constructor for singleton '{}' is not callable."
+      raise ValueError(err_str.format(key))
+    key_lock = _SINGLETON_KEY_LOCKS.setdefault(key, threading.RLock())
+  # The constructor runs under a lock of its own key only, so that constructing
+  # one singleton never waits for the (arbitrary) constructor of another one.
+  with key_lock:
+    with _SINGLETONS_LOCK:
+      if key in _SINGLETONS:
+        return _SINGLETONS[key]
+    value = constructor()
+    with _SINGLETONS_LOCK:
+      _SINGLETONS[key] = value
+    return value
 
 
 def constant(name, value):
